@@ -109,8 +109,10 @@ func c17RunScript(n datamodel.Node, script []c17Op) []string {
 				out[i] = c.String()
 			case "attempt-shard":
 				// narrowing an already reified directory to the shard type, as a request handler with its own context would
+				// (and its own copy of the link system); the request is over - its context cancelled - when the call returns
 				ctx, cancel := context.WithCancel(context.Background())
-				sh, err := hamt.AttemptHAMTShardFromNode(ctx, n, c17LS)
+				own := *c17LS
+				sh, err := hamt.AttemptHAMTShardFromNode(ctx, n, &own)
 				cancel()
 				out[i] = fmt.Sprintf("%v/%v", sh != nil, err)
 			case "length":
@@ -242,7 +244,8 @@ func TestC17_P_ConcurrentReads(t *testing.T) {
 				es[i] = entryFor(n, 0)
 			}
 			var err error
-			root, _, err = buildSharded(st, es, rapid.SampledFrom([]int{8, 8, 16, 256}).Draw(t, "fanout"))
+			root, _, err = buildSharded(st, es, rapid.SampledFrom([]int{8, 8, 16, 256, 512, 1024}).Draw(t, "fanout"))
+			st.HonorCtx = true // (loads under a context that is already done are refused)
 			if err != nil {
 				t.Fatalf("harness: %v", err)
 			}
